@@ -137,12 +137,12 @@ PROPS['C11'] = {
 PROPS['C01'] = {
     'title': 'relate() returns the true DE-9IM matrix',
     'level': 'proof',
-    'verus': [],
+    'verus': ['c01_boundary'],
     'kani': [
         ('geo', 'c01.rs', r'^c01_k_', 'complete', 'quick'),
         ('geo', 'geomgraph.rs', r'^c01_k_', 'complete', 'quick'),
     ],
-    'trusted': ['only the finite-state components are under contract: IntersectionMatrix cells / masks / setters / compute_disjoint, HasDimensions of the loop-free types, TopologyPosition / Label algebra, Quadrant'],
+    'trusted': ['only the finite-state components are under contract: IntersectionMatrix cells / masks / setters / compute_disjoint, HasDimensions of the loop-free types, TopologyPosition / Label algebra, Quadrant, edge-end angle order, mod-2 boundary toggle (CoordNode::set_label_boundary, GeometryGraph::insert_boundary_point / determine_boundary: Verus, node map and Label abstract)'],
     'undecided_clauses': [
         'the noded-graph construction (segment intersector, noding, edge-end star labelling) is NOT under contract: "the matrix equals the true matrix for all inputs" is not decided',
         'transposition and representation-independence of the whole pipeline',
